@@ -8,7 +8,7 @@ LEVEL = 'other'
 EXPLANATION = ('LANG rules over the inlined MIR event graph of every source and every Observer impl: '
                'S1 each basic source delivers exactly its documented notification shape (of = next complete, never = nothing, ...); '
                'S2 error() forwards the error as the only downstream event (no item, aggregate or completion with it) and never swallows it; '
-               'S3 complete() delivers next* then exactly one complete; S5 is_finished answers true only for an empty slot or a finished downstream (otherwise a hot source skips the operator at its terminal); S6 the take_last/skip_last queues are first-in-first-out; S7 the take_last queue never holds more than `count` items after next(), for every count >= 0 (interval abstract interpretation of len - count); S8 the next() bodies of take, skip, skip_last, filter, take_while and skip_while agree with their definitions path by path (decision tables over the counter/bound difference, the predicate result and the mode flags; both directions); S9 distinct_until_(key_)changed replace their remembered item by the incoming one exactly when they forward it and never empty it; S10 value-flow definitions by path-sensitive provenance dataflow: last remembers every item and emits the remembered one, scan applies f(acc, item) once, stores and emits the new acc, default_if_empty clears its flag on every item and emits the default iff it is still set, pairwise emits (previous, item) and refills the previous slot, collect adds every item and emits the collection, map/tap/filter_map/on_error_map apply the user function once to the incoming value and forward as defined, contains answers true exactly on equality and false at the end, distinct(_key) forwards iff the key is new and then records it, buffer_with_count releases and empties the buffer exactly when it holds count items (undecidable terms pass); S13 initial state: a flag that the notification handlers only ever set to one constant starts as the other one, a counter they only increment starts at 0, wherever the state is constructed (through operator fields and constructors if need be); S14 no function takes the content of a shared slot (MutRc|MutArc<Option<..>>) out and stores the same value back later: while it is out the slot reads as terminated to every other input, thread and hot source; S12 no terminal is dropped silently: in error()/complete() of every Observer impl, a path that does nothing at all (no call, no write, no take) must have found the slot it would act on empty - an early return on any other condition swallows the terminal (tabled: the notifier sides that ignore their own terminal by definition); S11 the derived operators are the compositions their documentation states: the operator tree each ObservableExt builder returns (provided methods and constructors inlined) is compared with its definition — first = take(1), element_at(n) = skip(n).take(1), all = map.filter(not).take(1).default_if_empty(true), reduce = scan.last.default_if_empty(initial), count/sum/min/max/average with the arithmetic and the comparison direction of their folding functions, take_while vs take_while_inclusive by their flag (38 builders); S4 next() never sends an error and completes downstream only in the '
+               'S3 complete() delivers next* then exactly one complete; S5 is_finished answers true only for an empty slot or a finished downstream (otherwise a hot source skips the operator at its terminal); S6 the take_last/skip_last queues are first-in-first-out; S7 the take_last queue never holds more than `count` items after next(), for every count >= 0 (interval abstract interpretation of len - count); S8 the next() bodies of take, skip, skip_last, filter, take_while and skip_while agree with their definitions path by path (decision tables over the counter/bound difference, the predicate result and the mode flags; both directions); S9 distinct_until_(key_)changed replace their remembered item by the incoming one exactly when they forward it and never empty it; S10 value-flow definitions by path-sensitive provenance dataflow: last remembers every item and emits the remembered one, scan applies f(acc, item) once, stores and emits the new acc, default_if_empty clears its flag on every item and emits the default iff it is still set, pairwise emits (previous, item) and refills the previous slot, collect adds every item and emits the collection, map/tap/filter_map/on_error_map apply the user function once to the incoming value and forward as defined, contains answers true exactly on equality and false at the end, distinct(_key) forwards iff the key is new and then records it, buffer_with_count releases and empties the buffer exactly when it holds count items (undecidable terms pass); S13 initial state: a flag that the notification handlers only ever set to one constant starts as the other one, a counter they only increment starts at 0, wherever the state is constructed (through operator fields and constructors if need be); S15 no observer type has a Drop impl (a source dropping its observer is neither a terminal nor an unsubscription); S14 no function takes the content of a shared slot (MutRc|MutArc<Option<..>>) out and stores the same value back later: while it is out the slot reads as terminated to every other input, thread and hot source; S12 no terminal is dropped silently: in error()/complete() of every Observer impl, a path that does nothing at all (no call, no write, no take) must have found the slot it would act on empty - an early return on any other condition swallows the terminal (tabled: the notifier sides that ignore their own terminal by definition); S11 the derived operators are the compositions their documentation states: the operator tree each ObservableExt builder returns (provided methods and constructors inlined) is compared with its definition — first = take(1), element_at(n) = skip(n).take(1), all = map.filter(not).take(1).default_if_empty(true), reduce = scan.last.default_if_empty(initial), count/sum/min/max/average with the arithmetic and the comparison direction of their folding functions, take_while vs take_while_inclusive by their flag (38 builders); S4 next() never sends an error and completes downstream only in the '
                'tabled early terminators. Decides the termination shape on every path and, for the tabled operators, which items are forwarded and where each emitted value comes from; does not decide what user closures compute.')
 ASSUMPTIONS = ['what user closures compute is not decided; a provenance term the dataflow cannot resolve makes that clause undecided (it passes)']
 TECHNIQUE = 'static analysis: regular-language inclusion of downstream event words, path-sensitive interval and provenance dataflow, and operator-tree matching of builder return values, all over type-checked MIR (custom rustc_private driver)'
@@ -139,7 +139,7 @@ OWNERS = {
     'C15': ('src/ops/finalize.rs',),
     'C20': ('src/ops/group_by.rs',),
 }
-SCOPED = ('S1', 'S2', 'S3', 'S4', 'S5', 'S12', 'S13', 'S14')
+SCOPED = ('S1', 'S2', 'S3', 'S4', 'S5', 'S12', 'S13', 'S14', 'S15')
 # files that serve several properties: reported under C03 and, in addition, under these
 SHARED_FILES = {'src/ops/buffer.rs': ('C04', 'C09'), 'src/ops/sample.rs': ('C09',)}
 
@@ -155,7 +155,7 @@ def _owner(f):
 
 
 def _all(cx):
-    return s1(cx) + s234(cx) + s5(cx) + s6(cx) + s7(cx) + s8(cx) + s9(cx) + s10(cx) + s11(cx) + s12(cx) + s13(cx) + s14(cx)
+    return s1(cx) + s234(cx) + s5(cx) + s6(cx) + s7(cx) + s8(cx) + s9(cx) + s10(cx) + s11(cx) + s12(cx) + s13(cx) + s14(cx) + s15(cx)
 
 
 def check(cx):
@@ -167,7 +167,7 @@ def envelopes(cx, prop):
     if cx.control:
         return []
     out = []
-    for f in s1(cx) + s234(cx) + s5(cx) + s12(cx) + s13(cx) + s14(cx):
+    for f in s1(cx) + s234(cx) + s5(cx) + s12(cx) + s13(cx) + s14(cx) + s15(cx):
         if f.rule not in SCOPED:
             continue
         file = (f.loc or '').split(':', 1)[0]
@@ -1409,6 +1409,29 @@ def s14(cx):
                            g.loc(bad) if bad is not None else fn['span'], [node_desc(g, bad)] if bad is not None else None))
     if not cx.control and n < 10:
         res.append(Finding(ID, 'S14', 'floor', False, 'only %d functions that write a cell slot found, expected >= 10' % n))
+    return res
+
+
+# ---- S15: dropping an observer is not an event
+def s15(cx):
+    """a source may drop its observer at any time without having terminated (a Subject whose last handle goes away, a create()
+    closure that returns): that is not a terminal and not an unsubscription. No type that implements Observer therefore has a Drop
+    impl — a Drop that cancels pending timers, flushes or emits turns "the source went away" into an event of its own (a debounced
+    item still waiting for its window is lost, a buffer is flushed early ...). One finding per Drop impl of the crate."""
+    F = cx.facts
+    res = []
+    if cx.control:
+        return res
+    obs_types = {roles.impl_tag(cx, im) for im in cx.observer_impls()}
+    drops = [im for im in F.impls.values() if (im.get('trait') or '').endswith('ops::Drop') or (im.get('trait') or '') in ('std::ops::Drop', 'core::ops::Drop', 'std::ops::drop::Drop')]
+    for im in sorted(drops, key=lambda i: (i['file'], i['line'])):
+        tag = roles.impl_tag(cx, im)
+        bad = tag in obs_types
+        res.append(Finding(ID, 'S15', 'Drop for ' + tag, not bad,
+                           'not an observer type' if not bad else
+                           'an observer type has a Drop impl: being dropped by its source (which may simply go away without terminating) becomes an event — pending timers are cancelled / state is flushed although the stream neither completed, failed nor was unsubscribed',
+                           im['span']))
+    res.append(Finding(ID, 'S15', 'Drop impls inspected', True, '%d Drop impl(s) in the crate, %d observer types' % (len(drops), len(obs_types))))
     return res
 
 
